@@ -245,3 +245,151 @@ def translate(known_bmat=False):
             + vector_decode() + '\n\n' + bmat() + '\n\n'
             + '(* the inputs on which the bmat offsets are claimed; restricted when known_findings.txt lists the defect *)\n'
             + f'Definition bmat_domain (widths : list nat) : Prop := {dom}.\n')
+
+
+# ------------------------------------------------------------------------------------------ composite / vector DOF tables
+ELM = 'skfem/element/element.py'
+DOF = 'skfem/assembly/dofs.py'
+KIND = {'nodal': 0, 'edge': 1, 'facet': 2, 'interior': 3}
+
+
+def bfun_counts():
+    fn = t2.find_def(t2.parse(ELM), '_bfun_counts', 'Element')
+    ret = t2.only(_nodoc(fn.body), 'Element._bfun_counts body')
+    want = ('return np.array([self.nodal_dofs * self.refdom.nnodes, self.edge_dofs * self.refdom.nedges, '
+            'self.facet_dofs * self.refdom.nfacets, self.interior_dofs])')
+    if _norm(t2.src(ret)) != want:
+        raise TranslateError('Element._bfun_counts: ' + t2.src(ret))
+
+
+def deduce_bfun():
+    fn = t2.find_def(t2.parse(CMP), '_deduce_bfun', 'ElementComposite')
+    body = _nodoc(fn.body)
+    if _norm(t2.src(body[0])) != 'counts = np.sum(np.array([e._bfun_counts() for e in self.elems]), axis=0)':
+        raise TranslateError('_deduce_bfun counts: ' + t2.src(body[0]))
+    pos = 1
+    while pos < len(body) and isinstance(body[pos], ast.AnnAssign):       # tmp: List[Any] = [] ; ns: List[Any] = []
+        if t2.src(body[pos].value) != '[]' or t2.src(body[pos].target) not in ('tmp', 'ns'):
+            raise TranslateError('_deduce_bfun initialisation: ' + t2.src(body[pos]))
+        pos += 1
+    kinds = []
+    while pos < len(body) and isinstance(body[pos], ast.If):
+        blk = body[pos]
+        test = t2.src(blk.test)
+        if not (test.startswith('counts[') and test.endswith('] > 0')) or blk.orelse or len(blk.body) != 2:
+            raise TranslateError('_deduce_bfun block: ' + t2.src(blk)[:200])
+        K = int(test[len('counts['):-len('] > 0')])
+        s0, s1 = _norm(t2.src(blk.body[0])), _norm(t2.src(blk.body[1]))
+        attr = None
+        for a in KIND:
+            if s0 == f'tmp = sum([[j] * self.elems[j].{a}_dofs for j in range(len(self.elems))], [])':
+                attr = a
+        if attr is None:
+            raise TranslateError('_deduce_bfun pattern: ' + s0)
+        if s1 != f'ns += sum([tmp for j in range(int(counts[{K}] / len(tmp)))], [])':
+            raise TranslateError('_deduce_bfun repetition: ' + s1)
+        kinds.append((K, KIND[attr]))
+        pos += 1
+    rest = [_norm(t2.src(s)) for s in body[pos:]]
+    want = ['mask = np.array(ns)', 'inds = mask.copy()',
+            'for j in range(len(self.elems)): maskj = mask == j total = np.sum(maskj) seq = np.arange(total, dtype=np.int_) inds[maskj] = seq',
+            'return (ns[i], inds[i])']
+    if rest != want:
+        raise TranslateError('_deduce_bfun tail: ' + repr(rest))
+    if len(kinds) != 4:
+        raise TranslateError('_deduce_bfun: expected four entity kinds, got ' + repr(kinds))
+    # gbasis uses the pair as (component, local index)
+    gb = t2.find_def(t2.parse(CMP), 'gbasis', 'ElementComposite')
+    gsrc = [_norm(t2.src(s)) for s in _nodoc(gb.body)]
+    if 'n, ind = self._deduce_bfun(i)' not in gsrc or not any('if n == k: output.append(e.gbasis(mapping, X, ind, tind)[0]) else: output.append(e.gbasis(mapping, X, 0, tind)[0].zeros())' in g for g in gsrc):
+        raise TranslateError('ElementComposite.gbasis: ' + repr(gsrc)[:400])
+    klist = '; '.join(str(K) for K, _ in kinds)
+    sel = ' '.join(f'| {K} => {A}' for K, A in kinds)
+    return (f'(* counts index -> layout entry read in the block guarded by counts[K] > 0 *)\n'
+            f'Definition gen_kind_attr (K : nat) : nat := match K with {sel} | _ => K end.\n'
+            f'Definition gen_deduce_ns (ref : layout) (ls : list layout) : list nat :=\n'
+            f'  flat_map (fun K => let cnt := nth K (total_counts ref ls) 0 in\n'
+            f'                     if 0 <? cnt then let tmp := comp_pattern ls (gen_kind_attr K) in repeat_list tmp (cnt / length tmp) else [])\n'
+            f'           [{klist}].\n'
+            f'Definition gen_deduce_bfun (ref : layout) (ls : list layout) (i : nat) : nat * nat :=\n'
+            f'  let ns := gen_deduce_ns ref ls in (nth i ns 0, nth i (deduce_inds ns) 0).')
+
+
+def split_indices():
+    fn = t2.find_def(t2.parse(ABS), 'split_indices', 'AbstractBasis')
+    body = _nodoc(fn.body)
+    ifs = [s for s in body if isinstance(s, ast.If)]
+    top = t2.only(ifs, 'split_indices branches')
+    if t2.src(top.test) != 'isinstance(self.elem, ElementComposite)' or len(top.orelse) != 1 or not isinstance(top.orelse[0], ast.If) \
+            or t2.src(top.orelse[0].test) != 'isinstance(self.elem, ElementVector)':
+        raise TranslateError('split_indices: branch structure')
+    comp = '\n'.join(_norm(t2.src(s)) for s in top.body)
+    order_c = []
+    for a in ('nodal', 'edge', 'facet', 'interior'):
+        k = KIND[a]
+        pat = f"self.{a}_dofs[o[{k}]:o[{k}] + e.{a}_dofs].flatten('F')"
+        if pat not in comp:
+            raise TranslateError(f'split_indices (composite): slice of {a}_dofs not found')
+        order_c.append((comp.index(pat), k))
+    if [k for _, k in sorted(order_c)] != [0, 1, 2, 3]:
+        raise TranslateError('split_indices (composite): concatenation order')
+    if 'o += np.array([e.nodal_dofs, e.edge_dofs, e.facet_dofs, e.interior_dofs])' not in comp or 'o = np.zeros(4, dtype=np.int32)' not in comp \
+            or 'for k in range(nelems):' not in comp or 'e = self.elem.elems[k]' not in comp:
+        raise TranslateError('split_indices (composite): offset bookkeeping')
+    vec = '\n'.join(_norm(t2.src(s)) for s in top.orelse[0].body)
+    order_v = []
+    for a in ('nodal', 'edge', 'facet', 'interior'):
+        pat = f"self.{a}_dofs[k::ndims].flatten('F')"
+        if pat not in vec:
+            raise TranslateError(f'split_indices (vector): rows of {a}_dofs not found')
+        order_v.append((vec.index(pat), KIND[a]))
+    if [k for _, k in sorted(order_v)] != [0, 1, 2, 3] or 'ndims = self.elem.dim' not in vec or 'for k in range(ndims):' not in vec:
+        raise TranslateError('split_indices (vector): order / loop')
+    return ('(* rows o[K] : o[K] + e.K_dofs of each kind, flattened entity-major, kinds in the order nodal, edge, facet, interior *)\n'
+            'Definition gen_composite_split (tp : topo) (ls : list layout) (n : nat) : list nat :=\n'
+            '  split_list tp (D_of ls) (lay ls n) (fun K r => o_of ls n K + r).\n'
+            '(* rows k :: ndims of each kind *)\n'
+            'Definition gen_vector_split (tp : topo) (d : nat -> nat) (dim n : nat) : list nat :=\n'
+            '  split_list tp (fun K => dim * d K) d (fun K r => n + r * dim).')
+
+
+def dofs_init():
+    fn = t2.find_def(t2.parse(DOF), '__init__', 'Dofs')
+    src = '\n'.join(_norm(t2.src(s)) for s in _nodoc(fn.body))
+    need = [
+        "self.nodal_dofs = np.reshape(np.arange(element.nodal_dofs * topo.nvertices, dtype=np.int32), (element.nodal_dofs, topo.nvertices), order='F') + offset",
+        'offset += element.nodal_dofs * topo.nvertices',
+        "self.edge_dofs = np.reshape(np.arange(element.edge_dofs * topo.nedges, dtype=np.int32), (element.edge_dofs, topo.nedges), order='F') + offset",
+        'offset += element.edge_dofs * topo.nedges',
+        "self.facet_dofs = np.reshape(np.arange(element.facet_dofs * topo.nfacets, dtype=np.int32), (element.facet_dofs, topo.nfacets), order='F') + offset",
+        'offset += element.facet_dofs * topo.nfacets',
+        "self.interior_dofs = np.reshape(np.arange(element.interior_dofs * topo.nelements, dtype=np.int32), (element.interior_dofs, topo.nelements), order='F') + offset",
+        'self.element_dofs = np.zeros((0, topo.nelements), dtype=np.int32)',
+        'for itr in range(topo.t.shape[0]): self.element_dofs = np.vstack((self.element_dofs, self.nodal_dofs[:, topo.t[itr]]))',
+        'for itr in range(topo.t2e.shape[0]): self.element_dofs = np.vstack((self.element_dofs, self.edge_dofs[:, topo.t2e[itr]]))',
+        'for itr in range(topo.t2f.shape[0]): self.element_dofs = np.vstack((self.element_dofs, self.facet_dofs[:, topo.t2f[itr]]))',
+        'self.element_dofs = np.vstack((self.element_dofs, self.interior_dofs))',
+    ]
+    posn = []
+    for s in need:
+        if s not in src:
+            raise TranslateError('Dofs.__init__: statement not found: ' + s[:90])
+        posn.append(src.index(s))
+    if posn != sorted(posn):
+        raise TranslateError('Dofs.__init__: statement order changed')
+    return ('(* Dofs.__init__: kind tables reshape(arange, (d, G), order=F) + running offset; rows stacked kind by kind *)\n'
+            'Definition gen_element_dofs (tp : topo) (d : nat -> nat) : list (list nat) := element_dofs_of tp d.')
+
+
+HEADER2 = '''(* GENERATED by vlib/c19_translate.py from element_composite.py, abstract_basis.py (split_indices), dofs.py, element.py
+   of the implementation under test — do not edit *)
+From Coq Require Import List Arith Bool.
+Import ListNotations.
+Require Import Model.C19_Blocks Model.C19_Composite.
+
+'''
+
+
+def translate_comp():
+    bfun_counts()
+    return HEADER2 + deduce_bfun() + '\n\n' + split_indices() + '\n\n' + dofs_init() + '\n'
